@@ -44,6 +44,7 @@ func (cx *callCtx) freshResults(prefix string) []Term {
 func (fr *Frame) call(ins ssa.Instruction, c *ssa.CallCommon, st *State) []Term {
 	e := fr.eng
 	cx := &callCtx{fr: fr, st: st, instr: ins, common: c, sig: c.Signature()}
+	before := st.clone()
 	var rs []Term
 	if c.IsInvoke() {
 		recv := fr.val(c.Value)
@@ -98,7 +99,7 @@ func (fr *Frame) call(ins ssa.Instruction, c *ssa.CallCommon, st *State) []Term 
 		for tf.parent != nil {
 			tf = tf.parent
 		}
-		e.callLog = append(e.callLog, &CallRec{Name: cx.name, Instr: ins, Results: rs, Args: cx.args, PC: st.pc, Block: tf.curBlock, Index: tf.curIdx, Depth: fr.depth, After: st.clone()})
+		e.callLog = append(e.callLog, &CallRec{Name: cx.name, Instr: ins, Results: rs, Args: cx.args, PC: st.pc, Block: tf.curBlock, Index: tf.curIdx, Depth: fr.depth, After: st.clone(), Before: before})
 	}
 	return rs
 }
@@ -272,6 +273,11 @@ func (e *Engine) havocComp(st *State, c string) {
 		vc.decl("fn:privroot", "(declare-fun privroot (Int) Bool)")
 		vc.assumeIf(st.pc, fmt.Sprintf("(forall ((l Loc)) (! (=> (privroot (rootid l)) (= (select %s l) (select %s l))) :pattern ((select %s l))))", nw, old, nw))
 		vc.assumes["calls outside the package do not modify its unexported package-level variables"] = true
+	}
+	if strings.HasPrefix(e.compSort[c], "(Array Loc ") && e.hasLocals {
+		// objects created by this function whose address never left it cannot be touched by a callee
+		vc.decl("fn:localroot", "(declare-fun localroot (Int) Bool)")
+		vc.assumeIf(st.pc, fmt.Sprintf("(forall ((l Loc)) (! (=> (localroot (rootid l)) (= (select %s l) (select %s l))) :pattern ((select %s l))))", nw, old, nw))
 	}
 	st.heap[c] = nw
 }
